@@ -76,7 +76,7 @@ func init() {
 		NotDecided:  "panics inside third-party handlers, resource exhaustion, liveness of remote calls made under the lock.",
 	}
 	registry["C15"] = &propSpec{
-		Rules:       []ruleFn{ruleC15Codec, ruleC15Client, ruleC05Ping("C15-PING")},
+		Rules:       []ruleFn{ruleC15Codec, ruleC15Client, ruleC05Ping("C15-PING"), ruleC15Server},
 		Explanation: "Decides sibling agreement of Wire.Write and Wire.Read (six fixed-width little-endian items in the same order and types, length-prefixed payload, fresh payload buffer, magic check, flush, wire locks), single-goroutine ownership of the pending map and sequence counter, unique pre-incremented sequence numbers inserted before sending, reply matching/removal/single completion, a deadline for every operation type, early refusal and failing of all pending requests once the client is poisoned, and reporting of ping / wire failures.",
 		NotDecided:  "matching under all interleavings as a history property; behaviour on corrupted streams beyond the magic check; bounded time.",
 	}
